@@ -1,3 +1,4 @@
+import copy
 import functools
 import collections
 
@@ -66,7 +67,7 @@ def get_new_fields(resource, fields):
             )
             new_fields.append(target)
         elif isinstance:
-            new_fields.append(target)
+            new_fields.append(copy.deepcopy(target))
     return new_fields
 
 
